@@ -34,6 +34,9 @@ func checkC04(c *Ctx, r *Report) {
 	c04FreshMap(c, r)
 	c04PackWhole(c, r)
 	c04RootGuard(c, r)
+	c03SuffixIndex(c, r, "C04.R3.suffix-index")
+	typeTableStructs(c, r, "C04.R1.type-table", "a received or parsed record of that type is packed by the other struct's packer: names in its RDATA are compressed (or not) against its own struct tags, e.g. NSAP-PTR through PTR's cdomain-name")
+	borrow(c, r, c08R3, "C08.R3.buffer", "C04.R5.pack-buffer", 1, "the buffer packed into holds the uncompressed message: labels are bounds-checked before they are replaced by a pointer, so a buffer sized for the compressed form makes compressed packing fail where uncompressed packing succeeds", nil, "packing with compression then fails (ErrBuf) for buffers that hold the compressed form")
 	// a legal name must not be refused because it is compressed: the pointer exit measures the remainder in wire octets
 	sub := newReport("tmp", r.Tier)
 	c03EarlyExits(c, sub)
